@@ -175,12 +175,39 @@ func (r *shRender) stmt(s *shNode, ind int) {
 		r.block(s.blocks[0], ind+1)
 		r.line(ind, "}")
 	case "ifelse":
+		if r.style != nil && r.style.Chance(1, 3) {
+			// the variable of the init statement is visible in the else branch
+			r.nvar++
+			c := fmt.Sprintf("c%d", r.nvar)
+			r.line(ind, "if %s, n%s := nx(), %d; %s {", c, c, r.nvar%7+1, c)
+			r.block(s.blocks[0], ind+1)
+			r.line(ind, "} else {")
+			r.line(ind+1, "tr(9000 + n%s)", c)
+			r.block(s.blocks[1], ind+1)
+			r.line(ind, "}")
+			break
+		}
 		r.line(ind, "if %s {", r.cond())
 		r.block(s.blocks[0], ind+1)
 		r.line(ind, "} else {")
 		r.block(s.blocks[1], ind+1)
 		r.line(ind, "}")
 	case "ifelif":
+		if r.style != nil && r.style.Chance(1, 3) {
+			// ... and in the else-if condition and the final else
+			r.nvar++
+			c := fmt.Sprintf("c%d", r.nvar)
+			r.line(ind, "if %s, n%s := nx(), %d; %s {", c, c, r.nvar%7+1, c)
+			r.block(s.blocks[0], ind+1)
+			r.line(ind, "} else if d%s, m%s := nx(), n%s+10; d%s || %s {", c, c, c, c, c)
+			r.line(ind+1, "tr(9100 + m%s)", c)
+			r.block(s.blocks[1], ind+1)
+			r.line(ind, "} else {")
+			r.line(ind+1, "tr(9200 + n%s + m%s)", c, c)
+			r.block(s.blocks[2], ind+1)
+			r.line(ind, "}")
+			break
+		}
 		r.line(ind, "if %s {", r.cond())
 		r.block(s.blocks[0], ind+1)
 		r.line(ind, "} else if %s {", r.cond())
@@ -210,15 +237,26 @@ func (r *shRender) stmt(s *shNode, ind int) {
 		r.line(ind+1, "}")
 		r.block(s.blocks[0], ind+1)
 		r.line(ind, "}")
-	case "range":
-		r.line(ind, "for range xs {")
-		r.block(s.blocks[0], ind+1)
-		r.line(ind, "}")
-	case "rangekv":
-		r.nvar++
-		r.line(ind, "for k%d, v%d := range xs {", r.nvar, r.nvar)
-		r.line(ind+1, "_, _ = k%d, v%d", r.nvar, r.nvar)
-		r.block(s.blocks[0], ind+1)
+	case "range", "rangekv":
+		hdr := func(n *shNode) string {
+			if n.kind == "range" {
+				return "for range xs {"
+			}
+			r.nvar++
+			return fmt.Sprintf("for k%d, v%d := range xs { _, _ = k%d, v%d;", r.nvar, r.nvar, r.nvar, r.nvar)
+		}
+		body := s.blocks[0]
+		if r.style != nil && len(body) > 0 && (body[0].kind == "range" || body[0].kind == "rangekv") && r.style.Bool() {
+			// two range loops that start on one source line
+			r.line(ind, "%s %s", hdr(s), hdr(body[0]))
+			r.block(body[0].blocks[0], ind+2)
+			r.line(ind+1, "}")
+			r.block(body[1:], ind+1)
+			r.line(ind, "}")
+			break
+		}
+		r.line(ind, "%s", hdr(s))
+		r.block(body, ind+1)
 		r.line(ind, "}")
 	case "switch":
 		if s.tagged {
